@@ -17,7 +17,8 @@ TECHNIQUE = (
 )
 RULE = (
     "chars: every string of length <= n over the 14-character hostile alphabet; frags: every concatenation of <= k "
-    "fragments of the hostile fragment alphabet A4, joined with '' and with ' '. Each text runs the whole pipeline for "
+    "fragments of the hostile fragment alphabet A4, joined with '' and with ' '; post: every citation head x every sequence of <= 2 (quick) / 3 "
+    "post-citation fragments (years, courts, nested/unbalanced/empty parentheticals, brackets, pin cites). Each text runs the whole pipeline for "
     "each tokenizer and option. distinct = distinct (tokenizer, text); non-trivial = the text produced >= 1 citation."
 )
 ASSUMPTIONS = [
@@ -88,6 +89,23 @@ STRING_TEMPLATES = [
     "12 {r} ___ (1980). Id. at 5. Foo, supra, at 3.",
     "(2100) 12 {r} 345 [0000]",
 ]
+# post-citation material: every sequence of <= 3 of these after every head (metadata regexes, parenthetical trimming, year parsing)
+POST_HEADS = [
+    "Foo v. Bar, 1 U.S. 1",
+    "Foo v. Bar, 410 U.S. 113, 120",
+    "See 2 F.3d 4",
+    "Bar, 1 U.S. at 5",
+    "Foo, supra, at 3",
+    "Id. at 5",
+    "Mass. Gen. Laws ch. 1, § 2",
+    "1 Minn. L. Rev. 1, 5",
+    "Foo v. Bar (1990) 3 Cal. 4th 5",
+]
+POST = [
+    " (1999)", " (2000)", " (2d Cir. 1994)", " (1993 amendments omitted)", " ()", " ()x)", " (", ")", " (x)", " (quoting (y) z)",
+    ", 5", ", at 5-6", " [1999]", " (1999", " 1999)", " (99999)", " (n.d.)", ";", ". ", " (West 1999)", " (May 2, 1999)", " (1999-",
+    " (Wyo. ", "\n",
+]
 MODES = ["unchecked", "skip", "wrap"]
 N = {"quick": {"AC": 4, "HS": 4, "REF": 3}, "thorough": {"AC": 5, "HS": 5, "REF": 4}}
 K = {"quick": {"AC": 2, "HS": 2, "REF": 2}, "thorough": {"AC": 3, "HS": 3, "REF": 2}}
@@ -100,7 +118,7 @@ def setup(tier, seed):
 
 
 def bounds(tier):
-    return {"char_alphabet": [repr(c) for c in CHARS], "max_len": N[tier], "fragment_alphabet": len(A4), "frag_depth": K[tier], "separators": ["", " "], "modes": MODES, "string_templates": STRING_TEMPLATES, "reporter_strings": "all keys of EDITIONS_LOOKUP"}
+    return {"char_alphabet": [repr(c) for c in CHARS], "max_len": N[tier], "fragment_alphabet": len(A4), "frag_depth": K[tier], "separators": ["", " "], "modes": MODES, "string_templates": STRING_TEMPLATES, "reporter_strings": "all keys of EDITIONS_LOOKUP", "post_heads": len(POST_HEADS), "post_fragments": len(POST), "post_depth": 2 if tier == "quick" else 3}
 
 
 def pipeline(tok, text):
@@ -146,6 +164,10 @@ def shards(tier, seed):
     for tok in ("AC", "HS") if tier == "thorough" else ("AC",):
         for r in range(32):
             out.append({"part": "strings-" + tok, "alpha": "STRINGS", "tok": tok, "r": r, "n": 32})
+    for tok in ("AC", "HS") if tier == "thorough" else ("AC",):
+        for hi in range(len(POST_HEADS)):
+            for a in range(len(POST)):
+                out.append({"part": "post-" + tok, "alpha": "POST", "tok": tok, "head": hi, "first": a, "more": 1 if tier == "quick" else 2})
     for tok in ("AC", "HS", "REF"):
         for li in range(len(LONG)):
             if tok == "REF" and tier == "quick":
@@ -188,6 +210,10 @@ def run_shard(sh):
     elif sh["alpha"] == "STRINGS":
         sh = dict(sh, depth=1)
         gen = string_texts(sh)
+    elif sh["alpha"] == "POST":
+        sh = dict(sh, depth=3)
+        head, first = POST_HEADS[sh["head"]], POST[sh["first"]]
+        gen = (((0,) * (1 + len(t)), head + first + "".join(t)) for k in range(0, sh["more"] + 1) for t in itertools.product(POST, repeat=k))
     else:
         gen = docspace.walk(alpha, sh["depth"], sh, sep=sh["sep"])
     for idx, text in gen:
